@@ -223,10 +223,34 @@ pub fn run_case(ctx: &Ctx, case: &Case) -> Outcome {
     };
     // ---- wire round trip: every sync message must decode to what it was built from
     let mut full_sync = false;
+    // ---- and the builder: every sync `replicate` names a database and key the primary has, with the value the primary
+    // holds; every key written while the joiner was away (and still live) is named
+    let primary_now = if fail.is_none() { cluster_dump(&c, 0) } else { Default::default() };
+    let mut named: BTreeSet<(String, String)> = BTreeSet::new();
+    let mut saw_sync_lines = false;
+    if std::env::var("NV_C05_DEBUG").is_ok() {
+        for i in 0..2 {
+            let n = c.nodes[i].node.as_ref().unwrap();
+            let bytes = std::fs::read(format!("{}/oplog-nun.op", c.nodes[i].dir)).unwrap_or_default();
+            let mut recs = vec![];
+            let mut j = 0;
+            while j + 25 <= bytes.len() {
+                recs.push((u64::from_le_bytes(bytes[j..j + 8].try_into().unwrap()) % 1_000_000_000, u64::from_le_bytes(bytes[j + 8..j + 16].try_into().unwrap()), u64::from_le_bytes(bytes[j + 16..j + 24].try_into().unwrap()), bytes[j + 24]));
+                j += 25;
+            }
+            eprintln!("  oplog n{} (ts,key,db,kind): {:?}\n   keys {:?}\n   dbs {:?}", i, recs, n.dbs.id_keys_map.read().unwrap(), n.dbs.id_name_db_map.read().unwrap());
+        }
+        for m in c.delivered[sync_mark..].iter() {
+            eprintln!("  msg n{}->n{} [{} {}] {:?}", m.from, m.to, m.kind, m.dir, m.line);
+        }
+    }
     if fail.is_none() {
         for m in c.delivered[sync_mark..].iter() {
             if m.from == 0 && m.to == 1 && m.dir == "c2s" && m.kind == "sec2pri" {
                 let line = m.line.trim_end_matches('\n');
+                if std::env::var("NV_C05_DEBUG").is_ok() {
+                    eprintln!("sync line: {:?}", line);
+                }
                 if line.starts_with("replicate-since") || line.starts_with("rp ") || line.starts_with("auth") || line.starts_with("set-primary") || line.starts_with("replicate-join") {
                     continue;
                 }
@@ -234,6 +258,18 @@ pub fn run_case(ctx: &Ctx, case: &Case) -> Outcome {
                     // built by the sync code as: replicate <db> <key> <value>
                     let mut it = rest.splitn(3, ' ');
                     let (db, key, value) = (it.next().unwrap_or(""), it.next().unwrap_or(""), it.next().unwrap_or(""));
+                    saw_sync_lines = true;
+                    named.insert((db.to_string(), key.to_string()));
+                    let dbi: usize = db.get(1..).and_then(|x| x.parse().ok()).unwrap_or(99);
+                    if !key.starts_with("$") {
+                        match primary_now.get(db).and_then(|m| m.get(key)) {
+                            None => judge("C05|sync-names-a-key-the-primary-does-not-have".to_string(), format!("the primary sent {:?}: it has no key {:?} in database {:?}", line, key, db), &mut fail),
+                            Some(pv) if !pv.2 && pv.0 != value && !during_keys.contains(&(dbi, key.to_string())) => {
+                                judge("C05|sync-sends-a-value-the-primary-does-not-hold".to_string(), format!("the primary sent {:?}; it holds {:?} for that key", line, pv.0), &mut fail)
+                            }
+                            _ => {}
+                        }
+                    }
                     match Request::parse(line) {
                         Ok(Request::ReplicateSet { db: pdb, key: pkey, value: pvalue, .. }) => {
                             if pdb != db || pkey != key || pvalue != value {
@@ -248,6 +284,43 @@ pub fn run_case(ctx: &Ctx, case: &Case) -> Outcome {
                 if line.starts_with("create-db ") {
                     full_sync = true;
                 }
+            }
+        }
+    }
+    // did an operation replicated live reach the joiner before it asked for what it had missed? (its request carries the
+    // time of the newest record of its own log, which such an operation has just moved forward)
+    let live_before_since = {
+        let since_at = c.delivered[sync_mark..].iter().position(|m| m.from == 1 && m.to == 0 && m.line.starts_with("replicate-since"));
+        let live_at = c.delivered[sync_mark..].iter().position(|m| m.from == 0 && m.to == 1 && m.dir == "c2s" && m.line.starts_with("rp ") && (m.line.contains(" replicate") || m.line.contains(" create-db")));
+        matches!((live_at, since_at), (Some(l), Some(s)) if l < s) || (live_at.is_some() && since_at.is_none())
+    };
+    // the joiner also answers its own replicate-since over the link it has to itself (from its own log, in the same
+    // message format): those lines name keys too
+    let named_by_primary = named.clone();
+    for m in c.delivered[sync_mark..].iter() {
+        if m.from == 1 && m.to == 1 && m.dir == "c2s" {
+            let line = m.line.trim_end_matches('\n');
+            if let Some(rest) = line.strip_prefix("replicate ").or_else(|| line.strip_prefix("replicate-remove ")) {
+                let mut it = rest.splitn(3, ' ');
+                named.insert((it.next().unwrap_or("").to_string(), it.next().unwrap_or("").to_string()));
+            }
+        }
+    }
+    for m in c.delivered[sync_mark..].iter() {
+        if m.from == 0 && m.to == 1 && m.dir == "c2s" {
+            if let Some(rest) = m.line.trim_end_matches('\n').strip_prefix("replicate-remove ") {
+                let mut it = rest.splitn(2, ' ');
+                named.insert((it.next().unwrap_or("").to_string(), it.next().unwrap_or("").to_string()));
+            }
+        }
+    }
+    if fail.is_none() && saw_sync_lines {
+        let named = &named_by_primary;
+        for (dbi, k) in away_updates.iter() {
+            let db = format!("d{}", dbi);
+            let live = primary_now.get(&db).and_then(|m| m.get(k)).map(|v| !v.2).unwrap_or(false);
+            if live && !named.contains(&(db.clone(), k.clone())) {
+                judge("C05|sync-omits-a-key-written-while-away".to_string(), format!("key {:?} of database {} was written while the joiner was away and is live on the primary, but no synchronisation message names it; named: {:?}", k, db, named), &mut fail);
             }
         }
     }
@@ -270,6 +343,9 @@ pub fn run_case(ctx: &Ctx, case: &Case) -> Outcome {
             if strat(0) != strat(1) {
                 judge("C05|strategy-differs".to_string(), format!("database {}: strategy {} on the primary, {} on the joiner", db, strat(0), strat(1)), &mut fail);
             }
+            if std::env::var("NV_C05_DEBUG").is_ok() {
+                eprintln!("  dump {} primary {:?}\n  dump {} joiner  {:?}", db, pm, db, jm);
+            }
             let mut keys: Vec<&String> = pm.keys().chain(jm.keys()).collect();
             keys.sort();
             keys.dedup();
@@ -291,9 +367,37 @@ pub fn run_case(ctx: &Ctx, case: &Case) -> Outcome {
                 } else {
                     "not-touched-while-away"
                 };
-                let what = if pv.2 != jv.2 { "removed-vs-live" } else if pv.0 != jv.0 { "value" } else { "version" };
+                // direction matters: the synchronisation cannot carry removes (key gone on the primary, still live on the
+                // joiner) is one thing; a key that is live on the primary and absent on the joiner, or live on the joiner
+                // although the primary never had it, is another
+                let what = if pv.2 != jv.2 {
+                    if pv.2 && !pm.contains_key(k) {
+                        "key-only-on-the-joiner"
+                    } else if pv.2 {
+                        "removed-on-the-primary-live-on-the-joiner"
+                    } else {
+                        "live-on-the-primary-missing-on-the-joiner"
+                    }
+                } else if pv.0 != jv.0 {
+                    "value"
+                } else {
+                    "version"
+                };
                 let what = if class == "token" { "token" } else { what };
-                judge(format!("C05|joiner-differs|{}", what), format!("[{} {}] ", class, if full_sync { "full-sync" } else { "incremental-sync" }) + &format!("database {} key {:?}: primary {:?}, joiner {:?} (leave={}, disk={}, joiner snapshot={})", db, k, pv, jv, case.leave, case.disk, case.joiner_snapshots), &mut fail);
+                // why: was this key named by a synchronisation message at all?
+                let was_named = named.contains(&(db.clone(), k.clone()));
+                let why = if was_named {
+                    "a-sync-message-named-the-key"
+                } else if live_before_since {
+                    "no-sync-message|a-live-operation-reached-the-joiner-before-its-replicate-since"
+                } else if during_keys.contains(&id) {
+                    "no-sync-message|written-during-the-synchronisation"
+                } else {
+                    "no-sync-message"
+                };
+                // (the missed backlog shows as missing, stale or still-live keys alike: one root cause, one signature)
+                let what = if why.starts_with("no-sync-message|a-live-operation") { "backlog-not-sent" } else { what };
+                judge(format!("C05|joiner-differs|{}|{}", what, why), format!("[{} {}] ", class, if full_sync { "full-sync" } else { "incremental-sync" }) + &format!("database {} key {:?}: primary {:?}, joiner {:?} (leave={}, disk={}, joiner snapshot={})", db, k, pv, jv, case.leave, case.disk, case.joiner_snapshots), &mut fail);
             }
         }
     }
